@@ -479,6 +479,126 @@ fn coarse_level(e: &SpecEdge) -> u8 {
     }
 }
 
+/// The report layer (C02): what `print_json` and `print_human` render and what `has_errors`
+/// says, compared with the model's `Report.jsonFailures` / `humanFailures` / `exitCode` and, as an
+/// oracle, with the uncertified pairs recomputed from the records.
+fn check_report(r: &mut Report, d: &mut Driver, it: &Interner, md: &Metadata, rep: &resolver::ResolveReport<'_>, spec: &Spec, expected: Option<&[(usize, u64)]>, case: &str) {
+    let cfg = mock_cfg(md);
+    let out = BasicTestOutput::new();
+    let json_text = match guarded(|| rep.print_json(&out.clone().as_dyn(), None).map(|_| out.to_string())) {
+        Ok(Ok(t)) => t,
+        other => {
+            r.fail("oracle", "C02/report/print-json-fails", format!("{other:?}").chars().take(300).collect(), case);
+            return;
+        }
+    };
+    let out2 = BasicTestOutput::new();
+    let human_text = match guarded(|| rep.print_human(&out2.clone().as_dyn(), &cfg, None).map(|_| out2.to_string())) {
+        Ok(Ok(t)) => t,
+        other => {
+            r.fail("oracle", "C02/report/print-human-fails", format!("{other:?}").chars().take(300).collect(), case);
+            return;
+        }
+    };
+    let parsed: Result<serde_json::Value, _> = serde_json::from_str(&json_text);
+    let Ok(parsed) = parsed else {
+        r.fail("oracle", "C02/report/json-unparsable", json_text.chars().take(400).collect(), case);
+        return;
+    };
+    let crit_idx = |c: &str| spec.crits.iter().position(|x| x == c).unwrap_or(usize::MAX);
+    // (name, version, criteria indices in printed order)
+    let mut json_lines: Vec<(String, VetVersion, Vec<usize>)> = Vec::new();
+    let json_concl = match parsed["conclusion"].as_str().unwrap_or("") {
+        "success" => "success",
+        "fail (violation)" => "violation",
+        "fail (vetting)" => {
+            for l in parsed["failures"].as_array().cloned().unwrap_or_default() {
+                let ver = l["version"].as_str().and_then(|v| VetVersion::parse(v).ok());
+                let (Some(name), Some(ver), Some(mc)) = (l["name"].as_str(), ver, l["missing_criteria"].as_array()) else {
+                    r.fail("oracle", "C02/report/json-unparsable", format!("failure entry {l}"), case);
+                    return;
+                };
+                json_lines.push((name.to_owned(), ver, mc.iter().map(|c| crit_idx(c.as_str().unwrap_or(""))).collect()));
+            }
+            "failvet"
+        }
+        other => {
+            r.fail("oracle", "C02/report/json-unparsable", format!("conclusion `{other}`"), case);
+            return;
+        }
+    };
+    let mut human_lines: Vec<(String, VetVersion, Vec<usize>)> = Vec::new();
+    for l in human_text.lines() {
+        let Some((head, tail)) = l.split_once(" missing [") else { continue };
+        let Some((name, ver)) = head.trim_start().split_once(':') else { continue };
+        let Ok(ver) = VetVersion::parse(ver) else { continue };
+        let crits: Vec<usize> = tail.trim_end_matches(']').split(", ").filter(|x| !x.is_empty()).map(|x| crit_idx(x.trim_matches('"'))).collect();
+        human_lines.push((name.to_owned(), ver, crits));
+    }
+    let has_errors = rep.has_errors();
+    let enc = |lines: &[(String, VetVersion, Vec<usize>)], t: &mut Toks| {
+        t.n(lines.len());
+        for (n, v, c) in lines {
+            t.n(it.name(n)).n(it.ver(v)).list(c);
+        }
+    };
+    let mut t = Toks::new();
+    t.n(has_errors as usize);
+    enc(&json_lines, &mut t);
+    enc(&human_lines, &mut t);
+    r.corr("corr.resolve.report", &format!("ok {}", t.text()), &d.ask("report"), case);
+
+    // ---- oracle: the rendered report against the conclusion and the records
+    r.oracle_checked += 1;
+    let concl = match &rep.conclusion {
+        Conclusion::Success(_) => "success",
+        Conclusion::FailForViolationConflict(_) => "violation",
+        Conclusion::FailForVet(_) => "failvet",
+    };
+    if r.prop != "C02" {
+        return;
+    }
+    if json_concl != concl {
+        r.fail("oracle", "C02/report/json-conclusion", format!("the JSON report says `{json_concl}`, the conclusion is `{concl}`"), case);
+    }
+    if has_errors != (concl != "success") {
+        r.fail("oracle", "C02/report/has-errors", format!("has_errors() = {has_errors} but the conclusion is `{concl}`"), case);
+    }
+    let human_fail = human_text.contains("Vetting Failed!");
+    let human_ok = human_text.contains("Vetting Succeeded");
+    if human_ok != (concl == "success") || (human_fail != (concl == "failvet")) {
+        r.fail("oracle", "C02/report/human-conclusion", format!("the human report does not state the conclusion `{concl}`: {}", human_text.chars().take(200).collect::<String>()), case);
+    }
+    let mut hs = human_lines.clone();
+    let mut js = json_lines.clone();
+    hs.sort();
+    js.sort();
+    if hs != js {
+        r.fail("oracle", "C02/report/human-differs-from-json", format!("human lines {human_lines:?}\njson lines {json_lines:?}"), case);
+    }
+    if let (Some(expected), "failvet") = (expected, concl) {
+        // expected lines: package of node i, minimal names of the uncertified required criteria
+        let mut want: Vec<(String, VetVersion, Vec<usize>)> = Vec::new();
+        for (i, missing) in expected {
+            let p = &rep.graph.nodes[*i];
+            let mut names = Vec::new();
+            for c in 0..spec.crits.len() {
+                if missing & (1 << c) == 0 {
+                    continue;
+                }
+                let implied_by_other = (0..spec.crits.len()).any(|o| o != c && missing & (1 << o) != 0 && spec.closure[o] & (1 << c) != 0);
+                if !implied_by_other {
+                    names.push(c);
+                }
+            }
+            want.push((p.name.to_owned(), p.version.clone(), names));
+        }
+        if want != json_lines {
+            r.fail("oracle", "C02/report/json-lines", format!("the JSON report lists {json_lines:?}, the uncertified pairs (without implied duplicates) are {want:?}"), case);
+        }
+    }
+}
+
 pub fn check_world(r: &mut Report, d: &mut Driver, w: &gen::GWorld, tag: &str) {
     r.evaluations += 1;
     let store = w.store();
@@ -752,6 +872,11 @@ pub fn check_world(r: &mut Report, d: &mut Driver, w: &gen::GWorld, tag: &str) {
                 }
             }
         }
+    }
+
+    // the rendered report (JSON, human, has_errors)
+    if prop == "C02" || prop == "C01" {
+        check_report(r, d, &it, md, &rep, &spec, if any_conflict { None } else { Some(&expected_failures) }, case);
     }
 
     // C01 / C02 on the conclusion
